@@ -61,7 +61,20 @@ func setDurationField(field reflect.Value, fieldType reflect.Type, isPtr bool, v
 }
 
 // deserializeParams reads row 0 from a record batch into a Go struct.
-func deserializeParams(batch arrow.RecordBatch, target reflect.Type) (reflect.Value, error) {
+//
+// The schema gate below only vouches for the declared column types. What sits
+// underneath is still the client's: an embedded IPC payload of a binary-tagged
+// ArrowSerializable field can carry any columns, and nothing in the IPC reader
+// validates a dictionary index against its dictionary. None of the callers
+// runs this under a recover, so a panic while reading such a value would take
+// a pipe server down and abort an HTTP exchange; it is reported as an
+// ordinary decode error instead.
+func deserializeParams(batch arrow.RecordBatch, target reflect.Type) (result reflect.Value, err error) {
+	defer func() {
+		if rv := recover(); rv != nil {
+			result, err = reflect.Value{}, fmt.Errorf("malformed parameter batch: %v", rv)
+		}
+	}()
 	if target.Kind() == reflect.Ptr {
 		target = target.Elem()
 	}
@@ -116,7 +129,7 @@ func deserializeParams(batch arrow.RecordBatch, target reflect.Type) (reflect.Va
 		return reflect.Value{}, fmt.Errorf("parameter batch has %d rows, expected 1", batch.NumRows())
 	}
 
-	result := reflect.New(target).Elem()
+	result = reflect.New(target).Elem()
 
 	for ord, fd := range desc.Fields {
 		info := fd.Info
@@ -189,8 +202,11 @@ func setFieldFromArrow(field reflect.Value, fieldType reflect.Type, col arrow.Ar
 		var strVal string
 		switch c := col.(type) {
 		case *array.Dictionary:
-			dict := c.Dictionary().(*array.String)
-			strVal = dict.Value(c.GetValueIndex(idx))
+			v, err := dictionaryString(c, idx)
+			if err != nil {
+				return err
+			}
+			strVal = v
 		case *array.String:
 			strVal = c.Value(idx)
 		default:
@@ -286,8 +302,10 @@ func setFieldFromArrow(field reflect.Value, fieldType reflect.Type, col arrow.Ar
 		return setMapField(field, fieldType, isPtr, c, idx)
 	case *array.Dictionary:
 		// Dictionary-encoded string (enum)
-		dict := c.Dictionary().(*array.String)
-		strVal := dict.Value(c.GetValueIndex(idx))
+		strVal, err := dictionaryString(c, idx)
+		if err != nil {
+			return err
+		}
 		setStringField(field, fieldType, isPtr, strVal)
 	case *array.Struct:
 		return setStructField(field, fieldType, isPtr, c, idx)
@@ -295,6 +313,20 @@ func setFieldFromArrow(field reflect.Value, fieldType reflect.Type, col arrow.Ar
 		return fmt.Errorf("unsupported Arrow array type: %T", col)
 	}
 	return nil
+}
+
+// dictionaryString returns the string a dictionary-encoded slot stands for.
+// The index comes off the wire unchecked, so it is checked here.
+func dictionaryString(c *array.Dictionary, idx int) (string, error) {
+	dict, ok := c.Dictionary().(*array.String)
+	if !ok {
+		return "", fmt.Errorf("expected a string dictionary, got %T", c.Dictionary())
+	}
+	k := c.GetValueIndex(idx)
+	if k < 0 || k >= dict.Len() {
+		return "", fmt.Errorf("dictionary index %d out of range (dictionary has %d values)", k, dict.Len())
+	}
+	return dict.Value(k), nil
 }
 
 func setStringField(field reflect.Value, fieldType reflect.Type, isPtr bool, val string) {
